@@ -80,6 +80,125 @@ def run_python_code(code, n, names):
     return tabs
 
 
+# ------------------------------------------------- evaluating the C output
+# The C target is straight-line code over `bool` values:
+#   stmt  ::= lvalue '=' expr ';'         lvalue ::= ident | out_bits["name"]
+#   expr  ::= or ;  or ::= and ('||' and)* ;  and ::= un ('&&' un)*
+#   un    ::= '!' un | '(' expr ')' | 'true' | 'false' | ident
+# with `//` comments.  Anything else (e.g. a Python keyword) is an error, and
+# an identifier must have been assigned before it is read (strict evaluator).
+_C_TOKEN = re.compile(r'''\s*(?:(//[^\n]*)|(&&|\|\||[!()=;])|
+    (out_bits\["[^"]*"\])|([A-Za-z_][A-Za-z_0-9']*))''', re.X)
+
+
+def _c_tokens(code):
+    pos, out = 0, []
+    code = code.rstrip()
+    while pos < len(code):
+        m = _C_TOKEN.match(code, pos)
+        if not m or m.end() == pos:
+            raise AssertionError(f'C output: unexpected text {code[pos:pos + 20]!r}')
+        pos = m.end()
+        if m.group(1):
+            continue
+        out.append(m.group(2) or m.group(3) or m.group(4))
+    return out
+
+
+def _c_statements(code):
+    toks = _c_tokens(code)
+    stmts, cur = [], []
+    for t in toks:
+        if t == ';':
+            stmts.append(cur)
+            cur = []
+        else:
+            cur.append(t)
+    if cur:
+        raise AssertionError('C output: statement without `;`')
+    return stmts
+
+
+def _c_eval(toks, env):
+    pos = [0]
+
+    def peek():
+        return toks[pos[0]] if pos[0] < len(toks) else None
+
+    def take(t=None):
+        x = peek()
+        if x is None or (t is not None and x != t):
+            raise AssertionError(f'C output: expected {t}, got {x}')
+        pos[0] += 1
+        return x
+
+    def un():
+        x = take()
+        if x == '!':
+            return not un()
+        if x == '(':
+            r = expr()
+            take(')')
+            return r
+        if x == 'true':
+            return True
+        if x == 'false':
+            return False
+        if re.fullmatch(r"[A-Za-z_][A-Za-z_0-9']*", x):
+            if x not in env:
+                raise AssertionError(
+                    f'C output: identifier {x!r} is neither an input, a C '
+                    'constant, nor a latch assigned earlier')
+            return env[x]
+        raise AssertionError(f'C output: unexpected token {x!r}')
+
+    def and_():
+        r = un()
+        while peek() == '&&':
+            take()
+            r2 = un()
+            r = r and r2
+        return r
+
+    def expr():
+        r = and_()
+        while peek() == '||':
+            take()
+            r2 = and_()
+            r = r or r2
+        return r
+    r = expr()
+    if peek() is not None:
+        raise AssertionError(f'C output: trailing token {peek()!r}')
+    return r
+
+
+def run_c_code(c_code, n, names):
+    """Evaluate the C-syntax output on all 2^n inputs; {name: table}."""
+    stmts = _c_statements(c_code)
+    tabs = {name: 0 for name in names}
+    for k in range(1 << n):
+        env = {cs.bitname(i): bool((k >> i) & 1) for i in range(n)}
+        out = {}
+        for st in stmts:
+            if len(st) < 3 or st[1] != '=':
+                raise AssertionError(f'C output: not an assignment: {st[:4]}')
+            v = _c_eval(st[2:], env)
+            lv = st[0]
+            if lv.startswith('out_bits['):
+                out[lv[len('out_bits["'):-2]] = v
+            else:
+                if lv in env:
+                    raise AssertionError(f'C output: {lv} assigned twice')
+                env[lv] = v
+        if set(out) != set(names):
+            raise AssertionError(f'C output: out_bits has keys {sorted(out)}')
+        for name in names:
+            if out[name]:
+                tabs[name] |= 1 << k
+    return tabs
+
+
 def c_to_python(c_code, languages):
     """Token-wise translation of the C-syntax output to the Python syntax
     table (structural check of the C target)."""
